@@ -24,6 +24,7 @@ their exact satoshi values, recipient / change outputs, conservation, and per-in
 independently computed legacy / BIP143 signature hashes and OpenSSL ECDSA.
 """
 import os
+import random
 import sys
 from fractions import Fraction
 
@@ -573,6 +574,11 @@ def _rand_frac(rng):
 
 def gen_values(rng, n):
     out = []
+    # (first, so that the generic variants of common.py - which sample the first accepted cases of an op - see amounts with many
+    #  significant digits: a conversion that depends on ambient precision / rounding settings differs on exactly these)
+    for s_ in (123456789012, 2099999997690000, 99999999, 33333333, 1234567891, 4999999999, 87654321):
+        out.append(values_case("value-many-digits", 1.0, s_, [s_], 0))
+        out.append(values_case("value-many-digits", 0.5, 2 * s_ + 1, [s_, s_ + 1], 1000))
     # every boundary amount alone (sat_exact), with every named fraction
     for s in BOUNDARY_SATS:
         for fr in (1.0, 0.5, 0.29, 1.0 - 2 ** -53):
@@ -672,7 +678,7 @@ def gen_cases(rng, tier):
         for kind in LEGACY_KINDS:
             A(_send_case(rng, "regress-legacy-multi-input", kind, [0, 1], [COIN, COIN], flag=1, m=1))
             A(_send_case(rng, "regress-legacy-multi-input", kind, [rng.randrange(6) for _ in range(3)], [COIN] * 3, frac=0.9,
-                         flag=rng.choice(FLAGS), m=2))
+                         flag=rng.choice(FLAGS), m=2 if T else 1))
             A(_send_case(rng, "regress-legacy-flag", kind, [0], [COIN], flag=rng.choice([2, 0x82]), frac=rng.choice([1.0, 0.5]), m=1))
             A(_send_case(rng, "regress-legacy-flag", kind, [0], [COIN], flag=rng.choice([3, 0x83]), frac=0.5, m=1))
         A(_send_case(rng, "regress-raw-sender-no-change", "multisig", [0], [COIN], change=None, m=1))
@@ -713,10 +719,36 @@ def gen_cases(rng, tier):
     A(_send_case(rng, "same-outpoint-twice", "p2wpkh", [0, 0], [COIN, COIN], frac=1.0, flag=1, same_txid=True))
     A(_send_case(rng, "twin-utxos", "p2sh-p2wpkh", [0, 1, 2], [COIN] * 3, frac=0.5, flag=0x81, same_txid=True))
     A(_send_case(rng, "twin-utxos", "p2pkh", [3, 4], [12345678] * 2, frac=1.0, flag=1, same_txid=True))
+    # ---- PAIRS run back to back in the same worker: scenarios that agree in what a cheap fingerprint would look at
+    #      (private keys k and n-k: same x coordinate; txids with equal first 16 / last 8 bytes; equal everything but one field)
+    k0 = rng.randrange(2, SECP_N - 1)
+    for kk in (k0, SECP_N - k0):
+        s_addr, spk, wifs = sender("p2wpkh", [kk])
+        rec = recipient("p2pkh", random.Random(k0))
+        A(scenario("pair-negated-key", s_addr, rec, None, wifs, 1, 1.0, 1000, 1, 0, [(b"\x07" * 32, 0, COIN, spk)], _draws(rng, 2)))
+    s_addr, spk, wifs = sender("p2pkh", [k0])
+    rec = recipient("p2wpkh", random.Random(k0 + 1))
+    head, tail = rng.randbytes(16), rng.randbytes(8)
+    for mid in (b"\x00" * 8, b"\x01" * 8):
+        A(scenario("pair-similar-txid", s_addr, rec, None, wifs, 1, 1.0, 1000, 1, 0, [(head + mid + tail, 0, COIN, spk)], _draws(rng, 2)))
+    for amt in (COIN, COIN + 1):
+        A(scenario("pair-one-field-differs", s_addr, rec, None, [], None, 0.5, 1000, 1, 0, [(head + head, 1, amt, spk)], []))
+    for lt in (0, 1):
+        A(scenario("pair-one-field-differs", s_addr, rec, None, wifs, 0x81, 0.5, 1000, 2, lt, [(tail * 4, 1, COIN, spk)], _draws(rng, 2)))
+    # ---- field values that look like structure: all-zero / all-ff txid, the coinbase output index, maximal locktime
+    for txid_, vout_ in ((b"\x00" * 32, 0xFFFFFFFF), (b"\xff" * 32, 0), (b"\x00" * 31 + b"\x01", 0xFFFFFFFF)):
+        A(scenario("structure-like-fields", s_addr, rec, None, [], None, 1.0, 0, 2, 0xFFFFFFFF, [(txid_, vout_, COIN, spk)], []))
+    A(scenario("structure-like-fields", s_addr, rec, None, wifs, 1, 1.0, 1000, 1, 0xFFFFFFFF, [(b"\x00" * 32, 0, COIN, spk)], _draws(rng, 2)))
     # ---- witness scripts of 253 bytes and more (1-of-8: 275 bytes; beyond the property's n <= 3): CompactSize scriptCode length
     for kind in ("p2wsh", "p2sh-p2wsh"):
         A(_send_case(rng, "wsh-large-witness-script", kind, [0], [COIN], frac=rng.choice([1.0, 0.5]), flag=rng.choice(FLAGS),
                      m=1, nkeys=8))
+    # ... and redeem scripts above 255 bytes for legacy p2sh (within the 520-byte limit): pushed with OP_PUSHDATA2
+    A(_send_case(rng, "p2sh-large-redeem-script", "p2sh", [rng.randrange(3)], [COIN], frac=0.5, flag=1, m=1, nkeys=8))
+    A(_send_case(rng, "p2sh-large-redeem-script", "p2sh", [0], [COIN], frac=1.0, flag=rng.choice(FLAGS), m=2, nkeys=4, compressed=False))
+    if T:
+        A(_send_case(rng, "p2sh-large-redeem-script", "p2sh", [0, 1], [COIN, COIN], frac=1.0, flag=0x81, m=1, nkeys=15))
+        A(_send_case(rng, "p2sh-large-redeem-script", "multisig", [0], [COIN], frac=1.0, flag=1, m=1, nkeys=8))
     # ---- the witnesses of the repaired findings (corpus/c16/*.json): regression inputs that must satisfy the property now
     for c in corpus_cases():
         A(c)
